@@ -1094,7 +1094,7 @@ pub fn run_check(mode: Mode, replay: Option<Value>) -> i32 {
             rep.require("event", 1000);
             rep.require("direction-judged", 1000);
             rep.require("terminal-in-multi", 100);
-            rep.rule = "two-pass: roots placed relative to the plain run's grid; every event configuration is run (dense output on, t_eval none) and every reported event is checked: bracket, y_e = sol(t_e), |g| <= L(4e-12+8eps|t|), direction at the bracketing endpoints, order, shapes; non-trivial = run with events completed; distinct = distinct (RHS fingerprint, event times, configuration)".into();
+            rep.rule = "two-pass: roots placed relative to the plain run's grid; every event configuration is run (dense output on, t_eval none) and every reported event is checked: bracket, y_e = sol(t_e), |g| <= L(4e-12+8eps|t|), direction at the bracketing endpoints, order, no time reported twice under a direction filter, shapes; non-trivial = run with events completed; distinct = distinct (RHS fingerprint, event times, configuration)".into();
         }
         Mode::C09 => {
             rep.require("sign-change-step", 1000);
